@@ -10,7 +10,7 @@ CONSTANTS
   FnSets <- FnSets2
   PersonSets <- PersonSets4
   Modes <- ModesAll
-  MaxOps = 5
+  MaxOps = 4
   Acts <- ActsAll
   AssignSkipsDelegated = FALSE
   InitStates <- Inits01
